@@ -557,6 +557,7 @@ Section Lock.
   Hypothesis Hn : hd_sat x is_idc = false.
   Hypothesis H46 : hd_is x 46 = false.
   Hypothesis H35 : hd_is x 35 = false.
+  Hypothesis H58 : hd_is x 58 = false.
   Hypothesis Hsgn : (exists w c, lx = w ++ [c] /\ is_e c = true) -> hd_is x 45 = false /\ hd_is x 43 = false.
 
   Lemma not_e_x : forall c, hd_error x = Some c -> is_e c = false.
@@ -676,17 +677,17 @@ Section Lock.
   (* abs_based, cut into its three parts *)
   Definition based_frac (D : list (list char)) (F : nat) (base : N) (op : option N) : M (option ((N * list N) + terr)) :=
     if opt_is op 46 then skip D ;;; r <- try (parse_integer D F base false) ;; ret (Some r) else ret None.
-  Definition based_tail (D : list (list char)) (F : nat) (p0 pai : position) (base : N) (bt : list N)
+  Definition based_tail (D : list (list char)) (F : nat) (delim : N) (p0 pai : position) (base : N) (bt : list N)
              (bres : (N * list N) + terr) (fres : option ((N * list N) + terr)) : M (kind * value) :=
     op2 <- peek D ;;
-    if opt_is op2 35 then
+    if opt_is op2 delim then
       skip D ;;;
       '(iv, it) <- of_result bres ;;
       ftxt <- (match fres with
                | Some r => '(_, ft) <- of_result r ;; ret (Some ft)
                | None => ret None
                end) ;;
-      let txt := bt ++ [35] ++ it ++ (match ftxt with Some ft => [46] ++ ft | None => [] end) ++ [35] in
+      let txt := bt ++ [delim] ++ it ++ (match ftxt with Some ft => [46] ++ ft | None => [] end) ++ [delim] in
       if negb (in_range 2 16 base) then throw (TErr p0 pai 11)
       else
         op3 <- peek D ;;
@@ -715,10 +716,10 @@ Section Lock.
           end
         end
     else e <- get_pos ;; throw (TErr p0 e 12).
-  Lemma abs_based_unfold : forall D F p0 pai initial,
-    abs_based D F p0 pai initial =
+  Lemma abs_based_unfold : forall D F delim p0 pai initial,
+    abs_based D F delim p0 pai initial =
     ('(base, bt) <- of_result initial ;; skip D ;;; bres <- try (parse_integer D F base false) ;;
-     op <- peek D ;; fres <- based_frac D F base op ;; based_tail D F p0 pai base bt bres fres).
+     op <- peek D ;; fres <- based_frac D F base op ;; based_tail D F delim p0 pai base bt bres fres).
   Proof. reflexivity. Qed.
 
   Definition based_ftxt (fres : option ((N * list N) + terr)) : M (option (list N)) :=
@@ -731,9 +732,9 @@ Section Lock.
     | Some c => if is_e c then skip D ;;; x <- parse_exponent D F ;; ret (Some (c, x)) else ret None
     | None => ret None
     end.
-  Definition based_tail2 (D : list (list char)) (F : nat) (p0 pai : position) (base : N) (bt : list N)
+  Definition based_tail2 (D : list (list char)) (F : nat) (delim : N) (p0 pai : position) (base : N) (bt : list N)
              (iv : N) (it : list N) (ftxt : option (list N)) : M (kind * value) :=
-    let txt := bt ++ [35] ++ it ++ (match ftxt with Some ft => [46] ++ ft | None => [] end) ++ [35] in
+    let txt := bt ++ [delim] ++ it ++ (match ftxt with Some ft => [46] ++ ft | None => [] end) ++ [delim] in
     if negb (in_range 2 16 base) then throw (TErr p0 pai 11)
     else
       op3 <- peek D ;;
@@ -757,11 +758,11 @@ Section Lock.
         | None => ret (lit_int txt iv)
         end
       end.
-  Lemma based_tail_unfold : forall D F p0 pai base bt bres fres,
-    based_tail D F p0 pai base bt bres fres =
+  Lemma based_tail_unfold : forall D F delim p0 pai base bt bres fres,
+    based_tail D F delim p0 pai base bt bres fres =
     (op2 <- peek D ;;
-     if opt_is op2 35 then
-       skip D ;;; '(iv, it) <- of_result bres ;; ftxt <- based_ftxt fres ;; based_tail2 D F p0 pai base bt iv it ftxt
+     if opt_is op2 delim then
+       skip D ;;; '(iv, it) <- of_result bres ;; ftxt <- based_ftxt fres ;; based_tail2 D F delim p0 pai base bt iv it ftxt
      else e <- get_pos ;; throw (TErr p0 e 12)).
   Proof. reflexivity. Qed.
 
@@ -784,11 +785,11 @@ Section Lock.
         unfold bind at 1. rewrite EE2. unfold ret in *. injection E as <- <-. exists se, ue. split; [reflexivity|exact HLe].
       + unfold ret in *. injection E as <- <-. exists s, (y :: u). split; [reflexivity|exact HLa].
   Qed.
-  Lemma based_tail2_lock : forall p0 pai p02 pai2 base bt iv it ftxt st s u k v st',
-    based_tail2 d1 F1 p0 pai base bt iv it ftxt st = (Ok (k, v), st') -> L st s u ->
-    exists s' u', based_tail2 d2 F2 p02 pai2 base bt iv it ftxt s = (Ok (k, v), s') /\ L st' s' u'.
+  Lemma based_tail2_lock : forall delim p0 pai p02 pai2 base bt iv it ftxt st s u k v st',
+    based_tail2 d1 F1 delim p0 pai base bt iv it ftxt st = (Ok (k, v), st') -> L st s u ->
+    exists s' u', based_tail2 d2 F2 delim p02 pai2 base bt iv it ftxt s = (Ok (k, v), s') /\ L st' s' u'.
   Proof.
-    intros p0 pai p02 pai2 base bt iv it ftxt st s u k v st' H HLa. unfold based_tail2 in *. cbv zeta in *.
+    intros delim p0 pai p02 pai2 base bt iv it ftxt st s u k v st' H HLa. unfold based_tail2 in *. cbv zeta in *.
     destruct (negb (in_range 2 16 base)); [unfold throw in H; discriminate|].
     destruct (lk_peek _ _ _ HLa) as [P1 P2]. unfold bind at 1 in H. rewrite P1 in H. unfold bind at 1. rewrite P2.
     unfold bind at 1 in H. destruct (based_exp d1 F1 (hd_error u) st) as [[oexp|e|a] ste] eqn:EO; try discriminate.
@@ -802,14 +803,14 @@ Section Lock.
         injection H as <- <- <-. exists se, ue. split; [reflexivity|exact HLe].
       + unfold ret in *. injection H as <- <- <-. exists se, ue. split; [reflexivity|exact HLe].
   Qed.
-  Lemma based_tail_lock : forall p0 pai p02 pai2 base bt bres bres2 fres fres2 st s u k v st',
-    based_tail d1 F1 p0 pai base bt bres fres st = (Ok (k, v), st') -> L st s u -> isame bres bres2 -> fsame fres fres2 ->
-    exists s' u', based_tail d2 F2 p02 pai2 base bt bres2 fres2 s = (Ok (k, v), s') /\ L st' s' u'.
+  Lemma based_tail_lock : forall delim p0 pai p02 pai2 base bt bres bres2 fres fres2 st s u k v st',
+    based_tail d1 F1 delim p0 pai base bt bres fres st = (Ok (k, v), st') -> L st s u -> isame bres bres2 -> fsame fres fres2 ->
+    exists s' u', based_tail d2 F2 delim p02 pai2 base bt bres2 fres2 s = (Ok (k, v), s') /\ L st' s' u'.
   Proof.
-    intros p0 pai p02 pai2 base bt bres bres2 fres fres2 st s u k v st' H HL IB IF. rewrite based_tail_unfold in *.
+    intros delim p0 pai p02 pai2 base bt bres bres2 fres fres2 st s u k v st' H HL IB IF. rewrite based_tail_unfold in *.
     destruct (lk_peek _ _ _ HL) as [P1 P2]. unfold bind at 1 in H. rewrite P1 in H. unfold bind at 1. rewrite P2.
     destruct u as [|c u]; [cbn [hd_error opt_is] in H; unfold bind, get_pos, throw in H; discriminate|]. cbn [app hd_error opt_is] in *.
-    destruct (c =? 35); [|unfold bind, get_pos, throw in H; discriminate].
+    destruct (c =? delim); [|unfold bind, get_pos, throw in H; discriminate].
     rewrite (bind_skip d1 HD1 _ _ _ _ _ (proj1 HL)) in H. pose proof (proj1 (proj2 HL)) as H2. cbn [app] in H2.
     rewrite (bind_skip d2 HD2 _ _ _ _ _ H2). clear H2 P1 P2. pose proof (L_skip _ _ _ _ HL) as HLa.
     destruct bres as [[iv it]|e]; destruct bres2 as [[iv2 it2]|e2]; cbn [isame] in IB; try contradiction;
@@ -818,10 +819,10 @@ Section Lock.
     destruct fres as [[[fv ft]|e]|]; destruct fres2 as [[[fv2 ft2]|e2]|]; cbn [fsame isame] in IF; try contradiction.
     - injection IF as <- <-. unfold bind at 1 in H. unfold based_ftxt at 1 in H. unfold bind at 1 in H. cbn [of_result] in H. unfold ret at 1 2 in H.
       unfold bind at 1. unfold based_ftxt at 1. unfold bind at 1. cbn [of_result]. unfold ret at 1 2.
-      apply (based_tail2_lock _ _ _ _ _ _ _ _ _ _ _ _ _ _ _ H HLa).
+      apply (based_tail2_lock _ _ _ _ _ _ _ _ _ _ _ _ _ _ _ _ H HLa).
     - unfold bind at 1 in H. unfold based_ftxt at 1 in H. unfold bind at 1 in H. cbn [of_result] in H. unfold throw in H. discriminate.
     - unfold bind at 1 in H. unfold based_ftxt, ret at 1 in H. unfold bind at 1. unfold based_ftxt, ret at 1.
-      apply (based_tail2_lock _ _ _ _ _ _ _ _ _ _ _ _ _ _ _ H HLa).
+      apply (based_tail2_lock _ _ _ _ _ _ _ _ _ _ _ _ _ _ _ _ H HLa).
   Qed.
 
 
@@ -839,18 +840,18 @@ Section Lock.
     - unfold ret in *. injection H as <- <-. exists None, s, (c :: u). split; [reflexivity|]. split; [exact HL|exact I].
   Qed.
 
-  Lemma abs_based_lock : forall p0 pai p02 pai2 initial initial2 st s u k v st',
-    abs_based d1 F1 p0 pai initial st = (Ok (k, v), st') -> L st s u -> isame initial initial2 ->
-    (exists u0, u = 35 :: u0) ->
-    exists s' u', abs_based d2 F2 p02 pai2 initial2 s = (Ok (k, v), s') /\ L st' s' u'.
+  Lemma abs_based_lock : forall delim p0 pai p02 pai2 initial initial2 st s u k v st',
+    abs_based d1 F1 delim p0 pai initial st = (Ok (k, v), st') -> L st s u -> isame initial initial2 ->
+    (exists c0 u0, u = c0 :: u0) ->
+    exists s' u', abs_based d2 F2 delim p02 pai2 initial2 s = (Ok (k, v), s') /\ L st' s' u'.
   Proof.
-    intros p0 pai p02 pai2 initial initial2 st s u k v st' H HL HI [u0 ->]. rewrite abs_based_unfold in *.
+    intros delim p0 pai p02 pai2 initial initial2 st s u k v st' H HL HI [c0 [u0 ->]]. rewrite abs_based_unfold in *.
     destruct initial as [[base bt]|e]; destruct initial2 as [[base2 bt2]|e2]; cbn [isame] in HI; try contradiction;
       [|unfold bind at 1 in H; unfold of_result, throw in H; discriminate]. injection HI as <- <-.
     unfold bind at 1 in H. cbn [of_result] in H. unfold ret at 1 in H. unfold bind at 1. cbn [of_result]. unfold ret at 1.
     rewrite (bind_skip d1 HD1 _ _ _ _ _ (proj1 HL)) in H. pose proof (proj1 (proj2 HL)) as H2. cbn [app] in H2.
     rewrite (bind_skip d2 HD2 _ _ _ _ _ H2). pose proof (L_skip _ _ _ _ HL) as HLa. clear H2.
-    unfold bind at 1 in H. destruct (try (parse_integer d1 F1 base false) (skip_char st 35)) as [[bres|e|a] stb] eqn:EB; try discriminate.
+    unfold bind at 1 in H. destruct (try (parse_integer d1 F1 base false) (skip_char st c0)) as [[bres|e|a] stb] eqn:EB; try discriminate.
     destruct (try_pi_lock _ _ _ _ _ _ _ EB HLa) as [bres2 [sb [ub [EB2 [HLb [IB _]]]]]]. unfold bind at 1. rewrite EB2.
     destruct (lk_peek _ _ _ HLb) as [P1 P2]. unfold bind at 1 in H. rewrite P1 in H. unfold bind at 1. rewrite P2.
     unfold bind at 1 in H. destruct (based_frac d1 F1 base (hd_error ub) stb) as [[fres|e|a] stf] eqn:EFr; try discriminate.
@@ -860,7 +861,7 @@ Section Lock.
       rewrite based_tail_unfold in H. unfold bind at 1 in H. rewrite (peek_nil d1 HD1 _ (proj1 HLb)) in H. cbn [opt_is] in H.
       unfold bind, get_pos, throw in H. discriminate.
     - destruct (based_frac_lock _ _ _ _ _ _ EFr HLb ltac:(discriminate)) as [fres2 [sf [uf [EFr2 [HLf IF]]]]].
-      unfold bind at 1. unfold char in *. rewrite EFr2. apply (based_tail_lock _ _ _ _ _ _ _ _ _ _ _ _ _ _ _ _ H HLf IB IF).
+      unfold bind at 1. unfold char in *. rewrite EFr2. apply (based_tail_lock _ _ _ _ _ _ _ _ _ _ _ _ _ _ _ _ _ H HLf IB IF).
   Qed.
 
   Lemma lowercase_101 : forall c, lowercase c = 101 -> is_e c = true.
@@ -894,12 +895,13 @@ Section Lock.
       destruct (Hplain H) as [E2 ->]. unfold char in *. destruct (hd_error x) as [c|] eqn:Ex; cbn [option_map].
       + pose proof Hn as Hn'. rewrite (hd_err_sat _ _ _ Ex) in Hn'. pose proof H46 as H46'. rewrite (hd_err_is _ _ _ Ex) in H46'.
         pose proof H35 as H35'. rewrite (hd_err_is _ _ _ Ex) in H35'.
+        pose proof H58 as H58'. rewrite (hd_err_is _ _ _ Ex) in H58'.
         assert (NL : forall w, w <= 122 -> w <> c -> (lowercase c =? w) = false).
         { intros w Hw Hne. destruct (lowercase c =? w) eqn:E1; [|reflexivity]. apply N.eqb_eq in E1.
           apply (lowercase_nonidc _ _ Hn' Hw) in E1. congruence. }
         assert (NI : forall w, 97 <= w <= 122 -> w <> c).
         { intros w Hw ->. unfold is_idc, is_alnum, is_alpha, is_lower, in_range in Hn'. lia. }
-        rewrite (NL 46), (NL 101), (NL 35) by (try lia; try (apply NI; lia)).
+        rewrite (NL 46), (NL 101), (NL 35), (NL 58) by (try lia; try (apply NI; lia)).
         unfold is_bs_letter. rewrite (NL 115), (NL 117), (NL 98), (NL 111), (NL 120), (NL 100) by (try lia; try (apply NI; lia)).
         cbn [orb]. exists s1, []. split; [exact E2|exact HL1].
       + exists s1, []. split; [exact E2|exact HL1].
@@ -910,8 +912,24 @@ Section Lock.
       + destruct (lowercase c =? 101) eqn:E101.
         * apply (abs_int_exp_lock _ _ _ _ _ _ _ _ _ _ H HL1 II). exists c, u1. split; [reflexivity|]. apply lowercase_101. apply N.eqb_eq. exact E101.
         * destruct (lowercase c =? 35) eqn:E35.
-          -- apply (abs_based_lock _ _ _ _ _ _ _ _ _ _ _ _ H HL1 II). exists u1. f_equal. apply lowercase_35. apply N.eqb_eq. exact E35.
-          -- destruct (is_bs_letter (lowercase c)).
+          -- apply (abs_based_lock _ _ _ _ _ _ _ _ _ _ _ _ _ H HL1 II). exists c, u1. reflexivity.
+          -- destruct (lowercase c =? 58) eqn:E58.
+             { (* ':' : the one-character lookahead *)
+               assert (Hcol : exists b, colon_starts_based_literal d1 st1 = (Ok b, st1) /\ colon_starts_based_literal d2 s1 = (Ok b, s1)).
+               { unfold colon_starts_based_literal, colon_lookahead. unfold bind.
+                 rewrite (skip_cons d1 HD1 _ _ _ (proj1 HL1)). pose proof (proj1 (proj2 HL1)) as H2. cbn [app] in H2.
+                 rewrite (skip_cons d2 HD2 _ _ _ H2). unfold try. pose proof (L_skip _ _ _ _ HL1) as HLs.
+                 destruct (lk_peek _ _ _ HLs) as [P1 P2]. rewrite P1, P2. destruct u1 as [|y u1]; cbn [app hd_error].
+                 - unfold char in *. destruct (hd_error x) as [y|] eqn:Ex.
+                   + exists false. split; [reflexivity|]. pose proof Hn as Hn'. rewrite (hd_err_sat _ _ _ Ex) in Hn'.
+                     unfold is_idc in Hn'. apply orb_false_iff in Hn'. destruct Hn' as [-> _]. reflexivity.
+                   + exists false. split; reflexivity.
+                 - exists (is_alnum y). split; reflexivity. }
+               destruct Hcol as [bb [C1 C2]]. unfold bind at 1 in H. rewrite C1 in H. unfold bind at 1. rewrite C2.
+               destruct bb.
+               - apply (abs_based_lock _ _ _ _ _ _ _ _ _ _ _ _ _ H HL1 II). exists c, u1. reflexivity.
+               - destruct (Hplain H) as [E2 ->]. exists s1, (c :: u1). split; [exact E2|exact HL1]. }
+             destruct (is_bs_letter (lowercase c)).
              ++ assert (Hlen : (length (c :: u1) <= length u)%nat).
                 { destruct A1 as [n S]. pose proof (steps_len d1 HD1 _ _ _ S (proj1 (proj1 HL))) as E.
                   rewrite (proj2 (proj1 HL)), (proj2 (proj1 HL1)) in E. lia. }
